@@ -75,6 +75,29 @@ CHECKS.update({
             "are compiled by rustc through the real #[derive(TS)], `optional` on non-Option must hit the IsOption diagnostic."),
 })
 
+CHECKS.update({
+    "C03": ("exploration", "3.C03",
+            "export observation over generated dependency graphs: swc-parsed files checked for import/use closure and specifier resolution",
+            "Every type of a generated corpus (references, generics, defaults, inline/flatten, cycles, shared files, all placement forms) is "
+            "exported with its dependencies under five directory spellings and both import-esm settings; each written file is parsed and its "
+            "imports compared with the names its declarations use, every specifier resolved inside the same snapshot."),
+    "C04": ("exploration", "3.C04",
+            "hostile-text corpus + graph corpus exports parsed by swc: module shape, declared-name multiset, read-back of user strings",
+            "One hostile element per generated item (23 string classes x 6 positions, identifiers, doc texts) is exported; every written "
+            "file must parse, start with the notice, hold only type-only imports followed by `export type`, declare exactly the exported "
+            "identifiers and end with a newline; renamed strings must read back unchanged through the TypeScript parser."),
+    "C11": ("exploration", "3.C11",
+            "export observation with an IR-level reachability oracle and directory snapshots",
+            "The set of files an export creates is compared with the closure computed from the generator's own IR (independent of ts-rs's "
+            "dependency code) and the documented path rule; reported paths must be the written paths; unrelated files stay byte-identical."),
+    "C15": ("exploration", "3.C15",
+            "doc-group (metamorphic) monitor: declarations parsed by swc with and without documentation, comment attachment, merge pairs",
+            "The same item is generated without docs and with two different hostile doc texts at each position and in each doc form; the "
+            "parsed declaration must be identical, the comment attached exactly once to the documented node and contain the text, no comment "
+            "detached; pairs of documented types merged into one file in both orders keep their own comments; parse_docs is additionally "
+            "driven in-process on thousands of attribute lists."),
+})
+
 PENDING = {}
 
 
